@@ -37,11 +37,18 @@ pub struct Def {
 impl Def {
     /// This function checks the well-formedness of the top-level function. This consists of
     /// checking the well-formedness of the paramater list and return type, and typechecking the
-    /// body in the context given by the parameters.
+    /// body in the context given by the parameters. The return type of `main` must be `i64`,
+    /// since its result becomes the exit code of the program.
     pub fn check(mut self, symbol_table: &mut SymbolTable) -> Result<Def, Error> {
         self.context.no_dups(&self.name)?;
         self.context.check(symbol_table)?;
         self.ret_ty.check(&Some(self.span), symbol_table)?;
+        if self.name == "main" {
+            let ret_ty_span = match self.ret_ty {
+                Ty::I64 { span } | Ty::Decl { span, .. } => span.unwrap_or(self.span),
+            };
+            check_equality(&ret_ty_span, symbol_table, &Ty::mk_i64(), &self.ret_ty)?;
+        }
 
         self.body = self.body.check(symbol_table, &self.context, &self.ret_ty)?;
 
